@@ -17,6 +17,14 @@ theorem here says "the encoder's output decodes to within the bound".  What is p
   * opacity of BC7, decoder side for EVERY block (modes 0–3 always opaque; any mode: a pixel is opaque when both
     endpoints of the channel routed to alpha are 255; when a stored alpha endpoint is 255), and the discrete
     control flow of the encoder that bears on it (modes tried, forced p-bits, the exactness guard of constant alpha).
+  * the discrete core of the BC7 ENCODER (`Enc7.lean`: the block writers `Compressed::mode0 … mode7` with the index-list
+    compression and the anchor fix-up, the encoder's own palette arithmetic, the exhaustive `closest_*` index search):
+    the writer is a right inverse of the proved decoder on the encoder's intended palette, for EVERY mode, partition,
+    rotation, index selector, endpoint tuple, p-bit choice and index list (`bc7_writer_roundtrip`); the encoder's
+    palette arithmetic is the decoder's and the specification's (`bc7_encoder_palette_eq_decoder`); `closest_*` returns
+    the first palette entry of least squared distance, the error is the sum of those distances and cannot overflow
+    (`bc7_closest_is_argmin`); content that is a palette entry comes back exactly (`bc7_mode6_keeps_palette_content`);
+    written blocks whose alpha endpoints are all ones decode opaque (`bc7_writer_opaque`).
 The clauses about the searched output are decided by exploration with this verified oracle (harness/src/c13.rs).
 -/
 import DdsModel.Proofs.Enc13
@@ -24,6 +32,8 @@ import DdsModel.Proofs.Bc7Single
 import DdsModel.Proofs.Bc7Opaque
 import DdsModel.Proofs.Enc13Opaque
 import DdsModel.Proofs.Enc13Single
+import DdsModel.Proofs.Enc7Consequences
+import DdsModel.Proofs.Enc7Stats
 namespace Dds.C13
 open Dds Dds.Bc Dds.Enc13
 
@@ -561,5 +571,175 @@ theorem step_bounds :
     maxGap (fun s => s8n8 (w8 (s + 1 + 128))) 254 = STEP8S ∧
     maxGap (fun x => Bc7.promote x 5) 31 = STEP7C ∧ maxGap (fun x => Bc7.promote x 6) 63 = STEP7A := by
   decide +kernel
+
+/-! ### BC7: the block writers, the anchor fix-up, the encoder's palette arithmetic and index search (`Enc7.lean`) -/
+
+/-- T1. For EVERY mode 0..7, every partition / rotation / index-selector value of that mode, every endpoint tuple whose
+channels fit the mode's bit widths, every p-bit choice and EVERY index list (any `u64` holding 16 indexes of the mode's
+width; the anchors are NOT assumed normalised), the block `Compressed::modeN(..)` writes decodes — under the
+implementation-shaped decoder and under the specification decoder (C03x) — at each of the 16 pixels to exactly
+`interpolate(p_promote(e0), p_promote(e1), index_i)` over the subset of pixel `i`, computed with the ENCODER's arithmetic
+on the UN-normalised arguments, with the rotation applied (`Enc7.intended`).  So the anchor fix-up (swap the subset's
+endpoints, swap its p-bits where they are per endpoint, invert the subset's indexes, drop the anchor's top bit) is
+invisible after decoding, and the block is a 16-byte value. -/
+theorem bc7_writer_roundtrip (f : Enc7.Fields) (h : f.WF) :
+    Bc7.decodeBlock (Enc7.write f) = (List.range 16).map (Enc7.intended f) ∧
+    Bc7Spec.decodeBlock (Enc7.write f) = (List.range 16).map (Enc7.intended f) ∧
+    Enc7.write f < 2 ^ 128 := by
+  refine ⟨Enc7.writer_roundtrip f h, ?_, Enc7.write_lt f⟩
+  rw [← Bc7.decodeBlock_eq]; exact Enc7.writer_roundtrip f h
+
+/-- one subset, mode 6: index 0 has its top bit set, so `compress_p1` reports a swap (endpoints AND p-bits are exchanged,
+all 16 indexes inverted) -/
+def exF6 : Enc7.Fields :=
+  ⟨6, 0, 0, 0, [[1, 2, 3, 4], [120, 64, 127, 0]], [], [1, 0], 0x0123456789ABCDEF, 0⟩
+example : exF6.WF ∧ (Enc7.compressP1 4 exF6.indexes).2 = true ∧
+    Bc7.decodeBlock (Enc7.write exF6) = (List.range 16).map (Enc7.intended exF6) := by decide +kernel
+
+/-- two subsets, mode 7, partition 13 (rows 0–1 / rows 2–3, anchors 0 and 15): both anchors have the top bit set -/
+def exF7 : Enc7.Fields :=
+  ⟨7, 13, 0, 0, [[1, 2, 3, 4], [30, 16, 31, 0], [9, 9, 9, 31], [0, 31, 0, 17]], [], [1, 0, 0, 1], 0xE4E4E4E7, 0⟩
+example : exF7.WF ∧ (Enc7.compressP2 2 exF7.indexes (BcTables.implP2 13)).2 = (true, true) ∧
+    Bc7.decodeBlock (Enc7.write exF7) = (List.range 16).map (Enc7.intended exF7) := by decide +kernel
+
+/-- three subsets, mode 0, partition 1: every index is 7, so all three anchors have the top bit set and all three
+subsets are swapped and inverted -/
+def exF0 : Enc7.Fields :=
+  ⟨0, 1, 0, 0, [[1, 2, 3], [15, 0, 8], [4, 4, 4], [9, 10, 11], [0, 0, 15], [7, 7, 7]], [], [1, 0, 0, 1, 1, 1],
+    0xFFFFFFFFFFFF, 0⟩
+example : exF0.WF ∧ (Enc7.compressP3 3 exF0.indexes (BcTables.implP3 1)).2 = (true, true, true) ∧
+    Bc7.decodeBlock (Enc7.write exF0) = (List.range 16).map (Enc7.intended exF0) := by decide +kernel
+
+/-- mode 4 with the swapped index selector (`C3A2`): the 3-bit list indexes the colour; both lists have the anchor's top
+bit set, rotation `AG` -/
+def exF4 : Enc7.Fields :=
+  ⟨4, 0, 2, 1, [[1, 2, 3], [31, 0, 17]], [5, 60], [], 0xFFFFFFFE, 0xFAC688FAC68C⟩
+example : exF4.WF ∧ (Enc7.compressP1 2 exF4.indexes).2 = true ∧ (Enc7.compressP1 3 exF4.indexes2).2 = true ∧
+    Bc7.decodeBlock (Enc7.write exF4) = (List.range 16).map (Enc7.intended exF4) := by decide +kernel
+
+/-- T2. The encoder's own palette arithmetic (src/encode/bc7.rs) is the decoder's (src/decode/bc7.rs) for ALL inputs,
+and on in-range inputs the specification's: `promote` = bit replication, `p_promote` = `(v << 1 | p)` then replication,
+the weight tables are the decoder's, `interpolate::<W>` = the decoder's `lerp` on the decoder's table = the
+specification's `((64 - w)·e0 + w·e1 + 32) >> 6`; swapping the endpoints and inverting the index does not change the
+interpolated value (what makes the anchor fix-up sound). -/
+theorem bc7_encoder_palette_eq_decoder :
+    (∀ v bits, Enc7.promote v bits = Bc7.promote v bits) ∧
+    (∀ B v, Enc7.promoteCh B v = if B = 8 then v else Bc7.promote v B) ∧
+    (∀ B v p, Enc7.pPromoteCh B v p = if B = 7 then Bc7.withP v p else Bc7.promote (Bc7.withP v p) (B + 1)) ∧
+    (Enc7.WEIGHTS_2 = Bc7.WEIGHTS_2 ∧ Enc7.WEIGHTS_3 = Bc7.WEIGHTS_3 ∧ Enc7.WEIGHTS_4 = Bc7.WEIGHTS_4) ∧
+    (∀ W e0 e1 k, Enc7.interpolate W e0 e1 k =
+      Bc7.lerp e0 e1 ((if W = 2 then Bc7.WEIGHTS_2 else if W = 3 then Bc7.WEIGHTS_3 else Bc7.WEIGHTS_4).getD k 0)) ∧
+    (∀ bits v, 4 ≤ bits → bits < 8 → v < 2 ^ bits → Enc7.promote v bits = Bc7Spec.expand bits v) ∧
+    (∀ B v p, 4 ≤ B → B < 8 → v < 2 ^ B → p < 2 → Enc7.pPromoteCh B v p = Bc7Spec.expand (B + 1) (v * 2 + p)) ∧
+    (∀ W e0 e1 k, (W = 2 ∨ W = 3 ∨ W = 4) → e0 < 256 → e1 < 256 → k < 2 ^ W →
+      Enc7.interpolate W e0 e1 k = Bc7Spec.interp e0 e1 ((BcTables.specWeights W).getD k 0)) ∧
+    (∀ W e0 e1 k, (W = 2 ∨ W = 3 ∨ W = 4) → k < 2 ^ W →
+      Enc7.interpolate W e1 e0 (2 ^ W - 1 - k) = Enc7.interpolate W e0 e1 k) := by
+  refine ⟨Enc7.promote_eq_dec, ?_, ?_, Enc7.weights_eq_dec, Enc7.interpolate_eq_lerp, ?_, ?_, ?_, ?_⟩
+  · intro B v
+    by_cases h : B = 8
+    · subst h; simp [Enc7.promoteCh8]
+    · simp [h, Enc7.promoteCh_ne8 B v h]
+  · intro B v p
+    by_cases h : B = 7
+    · subst h; simp [Enc7.pPromoteCh7]
+    · simp [h, Enc7.pPromoteCh_ne7 B v p h]
+  · intro bits v h4 h8 hv; exact Enc7.promote_eq_spec bits v h4 h8 hv
+  · intro B v p h4 h8 hv hp; exact Enc7.pPromoteCh_eq_spec B v p h4 h8 hv hp
+  · intro W e0 e1 k hW h0 h1 hk; exact Enc7.interpolate_eq_spec W e0 e1 k hW h0 h1 hk
+  · intro W e0 e1 k hW hk; exact Enc7.interpolate_sym W e0 e1 k hW hk
+
+example : Enc7.interpolate 3 200 17 2 = 149 ∧ Enc7.interpolate 3 17 200 5 = 149 ∧ Enc7.pPromoteCh 4 9 1 = 156 := by decide
+
+/-- T3. `closest_rgb`, `closest_rgba`, `closest_alpha` are EXHAUSTIVE over the whole palette (no shortcut), with a strict
+`<` update, for every index width, all byte endpoints and every slice of at most 16 byte pixels (`Enc7.ArgminSpec`):
+the index stored for pixel `i` is in range; its palette entry is at least as close (squared distance, `dist_sq`) as EVERY
+entry and strictly closer than every entry with a LOWER index (ties go to the lowest index); the returned error is the sum
+of the chosen distances, at most `n·4·255²` (`n·3·255²`, `n·255²`) ≤ 4 161 600, so the `u32` accumulator cannot overflow;
+the index word holds 16 entries.  The palette list the search runs over is entry by entry the encoder's interpolation
+table `j ↦ interpolate(e0, e1, j)` (the first and last entries, which the code takes from the endpoints themselves,
+included). -/
+theorem bc7_closest_is_argmin (I : Nat) (hI : I = 2 ∨ I = 3 ∨ I = 4) :
+    (∀ (e0 e1 : List Nat) (pixels : List (List Nat)), Enc7.Byte4 e0 → Enc7.Byte4 e1 → (∀ p ∈ pixels, Enc7.Byte4 p) →
+      pixels.length ≤ 16 →
+      Enc7.ArgminSpec I Enc7.distSqRgba (Enc7.palette I (Enc7.interpolateRgba I) e0 e1) pixels [] (4 * 255 ^ 2)
+        (Enc7.closestRgba I e0 e1 pixels)) ∧
+    (∀ (e0 e1 : List Nat) (pixels : List (List Nat)), Enc7.Byte3 e0 → Enc7.Byte3 e1 → (∀ p ∈ pixels, Enc7.Byte3 p) →
+      pixels.length ≤ 16 →
+      Enc7.ArgminSpec I Enc7.distSqRgb (Enc7.palette I (Enc7.interpolateRgb I) e0 e1) pixels [] (3 * 255 ^ 2)
+        (Enc7.closestRgb I e0 e1 pixels)) ∧
+    (∀ (e0 e1 : Nat) (pixels : List Nat), e0 ≤ 255 → e1 ≤ 255 → (∀ p ∈ pixels, p ≤ 255) → pixels.length ≤ 16 →
+      Enc7.ArgminSpec I Enc7.sqDiff (Enc7.palette I (Enc7.interpolateAlpha I) e0 e1) pixels 0 (255 ^ 2)
+        (Enc7.closestAlpha I e0 e1 pixels)) ∧
+    16 * (4 * 255 ^ 2) < U32 ∧
+    (∀ a0 a1 a2 a3 b0 b1 b2 b3 j, j < 2 ^ I → a0 < 256 ∧ a1 < 256 ∧ a2 < 256 ∧ a3 < 256 →
+      b0 < 256 ∧ b1 < 256 ∧ b2 < 256 ∧ b3 < 256 →
+      (Enc7.palette I (Enc7.interpolateRgba I) [a0, a1, a2, a3] [b0, b1, b2, b3]).getD j [] =
+        Enc7.interpolateRgba I [a0, a1, a2, a3] [b0, b1, b2, b3] j) ∧
+    (∀ a0 a1 a2 b0 b1 b2 j, j < 2 ^ I → a0 < 256 ∧ a1 < 256 ∧ a2 < 256 → b0 < 256 ∧ b1 < 256 ∧ b2 < 256 →
+      (Enc7.palette I (Enc7.interpolateRgb I) [a0, a1, a2] [b0, b1, b2]).getD j [] =
+        Enc7.interpolateRgb I [a0, a1, a2] [b0, b1, b2] j) ∧
+    (∀ a b j, j < 2 ^ I → a < 256 → b < 256 →
+      (Enc7.palette I (Enc7.interpolateAlpha I) a b).getD j 0 = Enc7.interpolateAlpha I a b j) := by
+  refine ⟨?_, ?_, ?_, by decide, ?_, ?_, ?_⟩
+  · intro e0 e1 pixels h0 h1 hp hn; exact Enc7.closestRgba_argmin I e0 e1 pixels hI h0 h1 hp hn
+  · intro e0 e1 pixels h0 h1 hp hn; exact Enc7.closestRgb_argmin I e0 e1 pixels hI h0 h1 hp hn
+  · intro e0 e1 pixels h0 h1 hp hn; exact Enc7.closestAlpha_argmin I e0 e1 pixels hI h0 h1 hp hn
+  · intro a0 a1 a2 a3 b0 b1 b2 b3 j hj ha hb; exact Enc7.paletteRgba_getD I _ _ _ _ _ _ _ _ j hI hj ha hb
+  · intro a0 a1 a2 b0 b1 b2 j hj ha hb; exact Enc7.paletteRgb_getD I _ _ _ _ _ _ j hI hj ha hb
+  · intro a b j hj ha hb; exact Enc7.paletteAlpha_getD I a b j hI hj ha hb
+
+/-- ties: endpoints 10, 10 give the palette `[10, 10, 10, 10]` and every pixel takes index 0 (the FIRST of the equal
+entries); endpoints 0, 255 give `[0, 84, 171, 255]`; the error is the sum of the squared distances -/
+example : Enc7.closestAlpha 2 10 10 [7, 10, 12] = (0, 9 + 0 + 4) ∧
+    Enc7.closestAlpha 2 0 255 [0, 85, 170, 255, 128] = (Enc7.ofList 2 [0, 1, 2, 3, 2], 1 + 1 + 43 * 43) := by decide
+
+/-- T4 (representable content is kept, mode 6). If every one of the 16 pixels IS an entry of the palette of the 7-bit
+endpoints `e0, e1` with p-bits `p0, p1` — in particular if every pixel equals one of the two promoted endpoints — then
+`Compressed::mode6` of the index list `closest_rgba::<4>` selects decodes to exactly the 16 pixels. -/
+theorem bc7_mode6_keeps_palette_content (e0 e1 : List Nat) (p0 p1 : Nat) (pixels : List (List Nat))
+    (hlen : pixels.length = 16) (he0 : ∀ c, c < 4 → Enc7.px e0 c < 2 ^ 7) (he1 : ∀ c, c < 4 → Enc7.px e1 c < 2 ^ 7)
+    (hp0 : p0 < 2) (hp1 : p1 < 2)
+    (hpx : ∀ p ∈ pixels, ∃ k, k < 16 ∧
+      p = Enc7.interpolateRgba 4 (Enc7.pPromoteRgba 7 e0 p0) (Enc7.pPromoteRgba 7 e1 p1) k) :
+    Bc7.decodeBlock (Enc7.mode6 [e0, e1] [p0, p1]
+      (Enc7.closestRgba 4 (Enc7.pPromoteRgba 7 e0 p0) (Enc7.pPromoteRgba 7 e1 p1) pixels).1) = pixels :=
+  Enc7.mode6_exact e0 e1 p0 p1 pixels hlen he0 he1 hp0 hp1 hpx
+
+/-- two colours that are exactly the promoted endpoints, in a pattern whose first pixel is the SECOND endpoint: the
+anchor index is 15, the writer swaps, and the block still decodes to the pixels -/
+example :
+    let a := Enc7.pPromoteRgba 7 [10, 20, 30, 127] 1
+    let b := Enc7.pPromoteRgba 7 [100, 90, 80, 127] 1
+    let pixels := [b, a, a, b, b, b, a, a, b, a, b, a, a, a, b, b]
+    (Enc7.compressP1 4 (Enc7.closestRgba 4 a b pixels).1).2 = true ∧
+    Bc7.decodeBlock (Enc7.mode6 [[10, 20, 30, 127], [100, 90, 80, 127]] [1, 1] (Enc7.closestRgba 4 a b pixels).1) = pixels := by
+  decide +kernel
+
+/-- T4 (opacity). A block written with alpha endpoints that decode to 255 — modes 0–3 (no alpha field); mode 4 / 5
+unrotated with alpha endpoints 63 / 255; mode 6 with 7-bit alpha 127 and both p-bits 1 (what `bc7_opaque_pbits` forces
+for an opaque block); mode 7 with 5-bit alpha 31 and p-bit 1 at all four endpoints — shows alpha 255 at every pixel,
+whatever the colour endpoints, partition and index lists are. -/
+theorem bc7_writer_opaque (f : Enc7.Fields) (h : f.WF) (ha : Enc7.AlphaOnes f) :
+    ∀ i, i < 16 → Enc7.alphaAt (Bc7.decodeBlock (Enc7.write f)) i = 255 :=
+  fun i hi => Enc7.writer_opaque f h ha i hi
+
+example : Enc7.AlphaOnes ⟨6, 0, 0, 0, [[1, 2, 3, 127], [120, 64, 127, 127]], [], [1, 1], 0x0123456789ABCDEF, 0⟩ := by
+  decide
+
+/-- `BlockStats::opaque()` (`min.a == 255` over the running minima of `BlockStats::new`) holds exactly when every pixel of
+the block has alpha 255 (byte alphas) — the `opaque` that selects modes 0–3 / excludes mode 7 (`bc7_opaque_modes`) and
+forces p-bits (1,1) (`bc7_opaque_pbits`), which with `bc7_writer_opaque` leaves only "the alpha FIELDS are all ones"
+(float-dependent) between an opaque input and an opaque output. -/
+theorem bc7_block_stats_opaque (block : List (List Nat)) (hb : ∀ p ∈ block, Enc7.px p 3 ≤ 255) :
+    Enc7.isOpaque (Enc7.blockStats block) = true ↔ ∀ p ∈ block, Enc7.px p 3 = 255 :=
+  Enc7.isOpaque_iff block hb
+
+/-- `BlockStats`: `opaque()`, `single_color()` (compares all four channels), `single_alpha()` on concrete blocks -/
+example : Enc7.isOpaque (Enc7.blockStats [[1, 2, 3, 255], [9, 9, 9, 255]]) = true ∧
+    Enc7.isOpaque (Enc7.blockStats [[1, 2, 3, 255], [9, 9, 9, 254]]) = false ∧
+    Enc7.singleColor (Enc7.blockStats [[1, 2, 3, 4], [1, 2, 3, 4]]) = some [1, 2, 3, 4] ∧
+    Enc7.singleColor (Enc7.blockStats [[1, 2, 3, 4], [1, 2, 3, 5]]) = none ∧
+    Enc7.singleAlpha (Enc7.blockStats [[1, 2, 3, 77], [9, 2, 3, 77]]) = some 77 := by decide
 
 end Dds.C13
